@@ -159,6 +159,9 @@ func (o *Object) Write(rootGoitPath string) error {
 func (o *Object) ReflectToWorkingTree(rootGoitPath, path string) error {
 	rootDir := filepath.Dir(rootGoitPath)
 	filePath := filepath.Join(rootDir, path)
+	if err := os.MkdirAll(filepath.Dir(filePath), os.ModePerm); err != nil {
+		return fmt.Errorf("fail to make directory %s: %w", filepath.Dir(filePath), err)
+	}
 	f, err := os.Create(filePath)
 	if err != nil {
 		return fmt.Errorf("fail to create file %s: %w", filePath, err)
